@@ -355,6 +355,33 @@ pub fn run_c18(ctx: &Ctx) -> i32 {
         states.fetch_add(n_sets as u64, Relaxed);
     }
     parts.push(json!({"part": "roundtrip", "byte_strings_per_codec": n_sets, "codecs": cs.len()}));
+    // byte strings near and beyond what an encoding of at most 1023 symbols can hold: turning them
+    // into text may be refused, but text that IS handed out decodes, validates and gives the bytes back
+    {
+        let mut acc = Acc { evals: 0, outcomes: vec![] };
+        for c in &cs {
+            if matches!(c.api, Codec::Default(_)) {
+                continue;
+            }
+            for len in [500usize, 560, 584, 600, 632, 633, 640, 700, 1000, 1023, 1024, 1100] {
+                let bytes: Vec<u8> = (0..len).map(|i| (i as u8).wrapping_mul(31).wrapping_add(7)).collect();
+                acc.evals += 1;
+                match catch(|| c.api().addr_humanize(&CanonicalAddr::from(bytes.clone()))) {
+                    Err(p) => ctx.violation("c18:humanize-panic", json!({"codec": c.name, "bytes_len": len, "panic": p})),
+                    Ok(Err(_)) => {}
+                    Ok(Ok(h)) => {
+                        let back = catch(|| c.api().addr_canonicalize(h.as_str()));
+                        let val = catch(|| c.api().addr_validate(h.as_str()));
+                        let ok = matches!(&back, Ok(Ok(b)) if b.as_slice() == bytes.as_slice()) && matches!(&val, Ok(Ok(a)) if a.as_str() == h.as_str());
+                        if !ok {
+                            ctx.violation("c18:canonicalize-rejects-own-output:long-address", json!({"codec": c.name, "bytes_len": len, "text_len": h.as_str().len(), "canonicalize": format!("{:?}", back.map(|r| r.map(|b| b.len()).map_err(|e| e.to_string()))), "validate": format!("{:?}", val.map(|r| r.map(|a| a.as_str().len()).map_err(|e| e.to_string())))}));
+                        }
+                    }
+                }
+            }
+        }
+        evals.fetch_add(acc.evals, Relaxed);
+    }
 
     if ctx.tier == Tier::Thorough {
         // all 16.7 M strings of length 3 for the two bech codecs with prefix juno
